@@ -372,7 +372,7 @@ func cmdCheck(args []string) int {
 		fmt.Fprintf(os.Stderr, "govc: no contracts are tagged with property %s\n", *prop)
 		return 2
 	}
-	timeout := 30
+	timeout := 60
 	if *tier == "thorough" {
 		timeout = 120
 	}
